@@ -1657,7 +1657,12 @@ skip_digit_separator(int c, bool hex) {
 int CPPPreprocessor::
 process_directive(int c) {
   assert(c == '#');
-  c = skip_whitespace(get());
+  // Skip blanks after the '#', but stay on the line: a '#' alone on a line is
+  // a (valid) null directive.
+  c = skip_comment(get());
+  while (c != EOF && c != '\n' && isspace(c)) {
+    c = skip_comment(get());
+  }
 
   int begin_line = get_line_number();
   int begin_column = get_col_number();
@@ -1701,8 +1706,8 @@ process_directive(int c) {
     handle_include_directive(args, loc);
   } else if (command == "pragma") {
     handle_pragma_directive(args, loc);
-  } else if (command == "ident") {
-    // Quietly ignore idents.
+  } else if (command == "ident" || command.empty()) {
+    // Quietly ignore idents, and the null directive.
   } else if (command == "error") {
     handle_error_directive(args, loc);
   } else if (command == "warning") {
@@ -2032,7 +2037,10 @@ skip_false_if_block(bool consider_elifs) {
   int c = skip_comment(get());
   while (c != EOF) {
     if (c == '#' && _start_of_line) {
-      c = skip_whitespace(get());
+      c = skip_comment(get());
+      while (c != EOF && c != '\n' && isspace(c)) {
+        c = skip_comment(get());
+      }
 
       YYLTYPE loc;
       loc.file = get_file();
